@@ -401,7 +401,9 @@ package parser2
 //@ type-invariant MethodCall: self != nil && self.Value != nil && (forall i in 0..len(self.Args) :: self.Args[i] != nil)
 //@ type-invariant ListAccess: self != nil && self.Index != nil && self.List != nil
 //@ type-invariant ClosureLiteral: self != nil && self.Func != nil
-// (a *MapLiteral can be a typed nil on the error return of parseLiteral, so it carries no invariant)
+// (a *MapLiteral is a typed nil on the error return of parseLiteral, so this cannot be a proved invariant: ASSUMED for
+// the nodes that reach the code generator, which runs only after a successful parse)
+//@ representation MapLiteral: self != nil && (forall i in 0..len(self.Map) :: self.Map[i].value != nil)
 //@ type-invariant ListLiteral: self != nil && (forall i in 0..len(self.List) :: self.List[i] != nil)
 //@ type-invariant Ident: self != nil
 //@ type-invariant Const: self != nil
